@@ -105,6 +105,36 @@ def rnd_pyval(rng, kind=None):
     raise ValueError(k)
 
 
+def pow_operand(kind, e, rng, as_base):
+    """descriptor of an operand of the given Python type: the integer exponent e (as_base False) or a base (non-integral
+    where the type allows it); None if the type cannot hold such a value"""
+    if as_base:
+        if kind in ('time', 'mpq', 'Fraction', 'sympy.Rational', 'MyFrac'):
+            q = rng.choice([F(1, 3), F(-5, 2), F(7, 10), F(0), F(3, 4)])
+            if q == 0 and e < 0:
+                q = F(1, 3)
+            return {'k': kind, 'v': str(q)}
+        if kind in ('int', 'mpz', 'sympy.Integer', 'np.int64', 'np.int8'):
+            return {'k': kind, 'v': str(rng.choice([-3, 2, 5, 7]))}
+        if kind == 'np.uint8':
+            return {'k': kind, 'v': str(rng.choice([2, 3, 200]))}
+        if kind in ('bool', 'np.bool_'):
+            return {'k': kind, 'v': True if e < 0 else rng.random() < 0.5}
+        if kind in REAL_KINDS:
+            x = rng.choice([0.1, 0.3, 2.5, -0.7, 1.5, 0.001] if kind not in ('np.float16',) else [0.5, 2.5, -0.75, 0.1])
+            return {'k': kind, 'v': float(x).hex()}
+        return None
+    if kind in ('time', 'mpq', 'Fraction', 'sympy.Rational', 'MyFrac', 'int', 'mpz', 'sympy.Integer', 'np.int64', 'np.int8'):
+        return {'k': kind, 'v': str(e)}
+    if kind == 'np.uint8':
+        return {'k': kind, 'v': str(abs(e))}
+    if kind in ('bool', 'np.bool_'):
+        return {'k': kind, 'v': e % 2 == 1}
+    if kind in REAL_KINDS:
+        return {'k': kind, 'v': float(e).hex()}
+    return None
+
+
 def pyobj(d):
     """the real Python object of the descriptor"""
     import numpy as np
